@@ -334,6 +334,13 @@ def _impl_history(case):
                     f = root / f"task_m{m}.py"
                     if not f.exists() or f.read_text() != text:
                         f.write_text(text); EI.stamp(f)
+                for t in op["tasks"]:
+                    if t.get("opt"):
+                        flag = root / f"opt{t['id']}.flag"
+                        if all(d in t["deps"] for d in t["opt"]):
+                            flag.write_text("on")
+                        else:
+                            flag.unlink(missing_ok=True)
                 (root / "faults.json").write_text(json.dumps(op["faults"]))
                 (root / "exec.log").unlink(missing_ok=True)
                 (root / "effects.log").unlink(missing_ok=True)
@@ -488,6 +495,8 @@ def canon_impl(o, sigs):
             effs.append((0, int(e[1]), files.get(int(e[1])) if not o.get("killed") else None))
         elif e[0] == "C":
             effs.append((1, sigs["t"].get(e[1], e[1]), sigs["t"].get(e[2], sigs["n"].get(e[2], e[2]))))
+        elif e[0] == "P":
+            effs.append((3, sigs["t"].get(e[1], e[1]), 0))
         else:
             effs.append((2, sigs["t"].get(e[1], e[1]), OUTCOMES.index(e[2])))
     return {"exit": 9 if o.get("killed") else o.get("exit"), "reports": reports, "log": log, "db": db, "files": files, "effects": effs}
